@@ -120,10 +120,12 @@ func (p *ClonePool) ExtractPendingRelease() []Value {
 func (p *ClonePool) ExtractAllMarkedFinalize() []Value {
 	p.mx.Lock()
 
-	// Disregard the pendingFinalize list as all values are still present in the
-	// weakrefs map.
+	// Values in the pendingFinalize list are still awaiting their finalizer
+	// (their Go finalizer has run but ExtractPendingFinalize has not returned
+	// them yet).  They are flagged as finalized in the register, so the loop
+	// below does not see them.
+	marked := p.pendingFinalize
 	p.pendingFinalize = nil
-	var marked sortablePendingClones
 	for k, c := range p.cloneRegister {
 		if !c.hasFlag(wrFinalized) {
 			c.setFlag(wrFinalized)
